@@ -519,6 +519,19 @@ theorem step_frame (st : State K) (op : Op K) : Frame op.target st (step st op).
     · rename_i h e
       rw [← var_vid t h name e]
       exact arithStep_frame st h f raw _ idx
+  | setVarSel t name sel bvals vals =>
+    simp only [step, Op.target]
+    split
+    · exact Frame.refl _ _
+    · rename_i h e
+      rw [← var_vid t h name e]
+      split
+      · exact Frame.refl _ _
+      · split
+        · exact arithStep_frame st h .set true _ _
+        · split
+          · exact arithStep_frame st h .set true _ _
+          · exact Frame.refl _ _
   | namedIop t name f vals =>
     simp only [step, Op.target]
     split
@@ -701,6 +714,17 @@ theorem step_cs (st : State K) (op : Op K) :
     split
     · rfl
     · exact arithStep_cs _ _ _ _ _ _
+  | setVarSel t name sel bvals vals =>
+    simp only [step]
+    split
+    · rfl
+    · split
+      · rfl
+      · split
+        · exact arithStep_cs _ _ _ _ _ _
+        · split
+          · exact arithStep_cs _ _ _ _ _ _
+          · rfl
   | namedIop t name f vals =>
     simp only [step]
     split
